@@ -830,6 +830,78 @@ def gen_dup_labels(rng, nmax=10):
     return out if changed else None
 
 
+def gen_mix(rng, nmax=10):
+    """A random game put through a random subset of legal-but-unusual ways of writing it down (each was, at some point, the
+    trigger of a seeded change): repeated action labels, identical parallel probabilistic edges, the empty action name, a branch
+    listed with probability 0, tiny live branches, extra non-absorbing finals in arbitrary order with repetitions, skewed owners."""
+    owners = rng.choice([(0.35, 0.3, 0.35), (0.35, 0.3, 0.35), (0.0, 0.5, 0.5), (0.5, 0.0, 0.5), (0.1, 0.1, 0.8), (0.45, 0.45, 0.1)])
+    base = rng.random()
+    if base < 0.3:
+        gd = gen_tiny_branch(rng, nmax=nmax)
+    elif base < 0.65:
+        gd = gen_layered(rng, rng.randint(3, nmax), back=0.0, owners=owners)
+    else:
+        gd = None
+        for _ in range(40):
+            gd = gen_layered(rng, rng.randint(4, nmax), back=rng.choice([0.2, 0.4]), owners=owners)
+            if is_stop(gd):
+                break
+            gd = None
+        if gd is None:
+            gd = gen_layered(rng, rng.randint(3, nmax), back=0.0, owners=owners)
+    players = list(gd["players"])
+    tl = [list(t) for t in gd["transition_list"]]
+    rewards = list(gd["rewards"])
+    finals = list(gd["final_states"])
+    n = len(players)
+    feats = []
+    g = to_oracle(gd)
+    # identical parallel probabilistic edges
+    if rng.random() < 0.35:
+        cands = [s for s in range(n) if players[s] == PR and not g.absorbing(s)]
+        for s in rng.sample(cands, min(len(cands), 2)):
+            i = rng.randrange(len(tl[s]))
+            p, t = tl[s][i]
+            tl[s][i:i + 1] = [(p / 2, t), (p / 2, t)]
+        feats.append("parallel")
+    # a branch listed with probability 0 (into any state)
+    if rng.random() < 0.25:
+        cands = [s for s in range(n) if players[s] == PR and not g.absorbing(s)]
+        for s in rng.sample(cands, min(len(cands), 1)):
+            tl[s].insert(rng.randrange(len(tl[s]) + 1), (F(0), rng.randrange(n)))
+        feats.append("zeroprob")
+    # repeated labels
+    if rng.random() < 0.3:
+        for s in range(n):
+            if players[s] != PR and len(tl[s]) >= 2 and rng.random() < 0.6:
+                i, j = rng.sample(range(len(tl[s])), 2)
+                tl[s][j] = (tl[s][i][0], tl[s][j][1])
+        feats.append("duplabels")
+    # the empty action name
+    if rng.random() < 0.25:
+        labs = sorted({a for s in range(n) if players[s] != PR for a, _ in tl[s]})
+        if labs:
+            victim = rng.choice(labs)
+            tl = [[(("" if a == victim else a), t) for a, t in tr] if players[s] != PR else tr for s, tr in enumerate(tl)]
+            feats.append("emptylabel")
+    # extra non-absorbing finals, order, repetition
+    if rng.random() < 0.25:
+        inner = [s for s in range(1, n) if not g.absorbing(s) and s not in finals]
+        for s in rng.sample(inner, min(len(inner), rng.choice([1, 2]))):
+            finals.append(s)
+        rng.shuffle(finals)
+        if rng.random() < 0.4:
+            finals.insert(rng.randrange(len(finals) + 1), rng.choice(finals))
+        feats.append("nonabsfinal")
+    out = {"rewards": rewards, "players": players, "transition_list": tl, "final_states": finals}
+    out["_features"] = feats
+    return out
+
+
+def is_stop(gd):
+    return oracle.is_stopping(to_oracle(gd))[0]
+
+
 def gen_no_reach(rng):
     """No non-final state can reach a final state: the finals are isolated (or every state is final)."""
     gd = gen_acy(rng, nmax=8) if rng.random() < 0.5 else (gen_cyc(rng, nmax=8) or gen_acy(rng, nmax=8))
@@ -894,6 +966,10 @@ def gen_class(rng, cls, **kw):
         return gen_aux_fast(rng)
     if cls == "G-DUPL":
         return gen_dup_labels(rng)
+    if cls == "G-MIX":
+        gd = gen_mix(rng)
+        gd.pop("_features", None)
+        return gd
     if cls == "G-NOREACH":
         return gen_no_reach(rng)
     if cls == "G-TINYB":
